@@ -34,7 +34,8 @@ N_VARIANTS = 4
 NAN = float("nan")
 
 LATTICE = [(0, 0), (3, 4), (0, 4), (1, 1), (10, 0)]
-EXTRA = [(2.0 ** -10, 0), (131072, 0)]                       # thorough: a very short and a very long leg
+EXTRA = [(2.0 ** -16, 0), (2.0 ** -10, 0), (131072, 0)]      # very short legs (15 um, 1 mm: below any "same position"
+                                                             # tolerance a helper might apply) and a very long one
 TIMES = [0, 1, 3]
 UNIT = [1.0, 5.0, 1.0, 0.5]           # variant 1 crosses the year end, 2 the leap day, 3 uses half seconds
 ORDERS = {"abs-first": ["abs", "abs", "speed", "speed"], "speed-first": ["speed", "abs", "abs", "speed"]}
@@ -49,9 +50,10 @@ OBLIGATIONS = {
     "interior_fix": "a fix with two neighbours and a non-zero elapsed time",
     "speed_zero_not_nan": "a speed that is 0 (same positions, elapsed time > 0) and must not be NaN",
     "speed_before_abscurv": "speed computed before the curvilinear abscissa",
+    "flat_track_with_very_short_leg": "a track of the extended lattice (legs of 15 um, 1 mm, 131 km) with all fixes at one height",
 }
 
-TIERS = {"quick": {"sizes": [2, 3, 4], "sizes_extra_lattice": []},
+TIERS = {"quick": {"sizes": [2, 3, 4], "sizes_extra_lattice": [2, 3]},
          "thorough": {"sizes": [2, 3, 4, 5], "sizes_extra_lattice": [2, 3, 4]}}
 
 
@@ -69,11 +71,11 @@ def _z(i):
     return (-1.0) ** i * 1000.0 * (i + 1)
 
 
-def mk_track(variant, pts, times):
+def mk_track(variant, pts, times, flat_z=False):
     t = Track([], "u", 1)
     for i, ((px, py), u) in enumerate(zip(pts, times)):
         x, y = alpha.xy(variant, px, py)
-        t.addObs(Obs(ENUCoords(x, y, _z(i)), alpha.obstime(alpha.t0(variant) + UNIT[variant] * u)))
+        t.addObs(Obs(ENUCoords(x, y, 50.0 if flat_z else _z(i)), alpha.obstime(alpha.t0(variant) + UNIT[variant] * u)))
     return t
 
 
@@ -145,11 +147,15 @@ def check_track(variant, pts, times, order, ctx):
         ctx.oblige("two_fix_track")
     if any(v == 0 for v in expV):
         ctx.oblige("speed_zero_not_nan")
+    flat_z = order.endswith("/flat-z")        # every fix at the same height (two fixes 15 um apart are then equal up to
+    order_name, order = order, order.split("/")[0]     # the 0.1 mm tolerance of ENUCoords.__eq__ on all three axes)
+    if flat_z:
+        ctx.oblige("flat_track_with_very_short_leg")
     if order == "speed-first":
         ctx.oblige("speed_before_abscurv")
     ctx.case(n >= 3 or rep_pos or len(set(times)) < n)
 
-    t = mk_track(variant, pts, times)
+    t = mk_track(variant, pts, times, flat_z)
     before = snap(t)
     seenS, seenV = None, None
     for step, what in enumerate(ORDERS[order]):
@@ -261,6 +267,8 @@ def run_shard(shard, ctx):
         for times in itertools.combinations_with_replacement(TIMES, n):
             for order in sorted(ORDERS):
                 check_track(v, pts, times, order, ctx)
+                if shard["extended"]:
+                    check_track(v, pts, times, order + "/flat-z", ctx)
         last = pts
     if last is not None:
         ctx.sample({"pts": [list(p) for p in last], "times": "all non-decreasing vectors over %r" % (TIMES,),
